@@ -622,6 +622,14 @@ def report(prop, tier, seed, results, kres, t0):
             print("UNDECIDED property=%s unit=%s %s" % (prop, r.get("unit"), r.get("undecided")))
             if r.get("raw"):
                 print(r["raw"])
+    # a function whose only failing clauses are recorded findings is accounted for separately: it is reported as a known
+    # finding, listed under coverage.known_finding_obligations and NOT counted among the obligations claimed discharged
+    known_fns = {(r["unit"], (e["fn"]["name"] if e.get("fn") else e.get("lemma"))) for _, e, r in known_hits}
+    known_rows = [x for x in per_fn if not x["ok"] and (x.get("unit"), x["fn"].split("::")[-1]) in known_fns]
+    if not violations:
+        for x in known_rows:
+            x["known_finding"] = True
+        obligations -= len(known_rows)
     ev = {
         "property_id": prop, "tier": tier, "seed": seed, "level": "proof",
         "coverage": {
@@ -636,6 +644,7 @@ def report(prop, tier, seed, results, kres, t0):
             "extraction_rewrites": rewrites,
             "bounded": bounded,
             "known_findings_reported": [k["what"] for k, _, _ in known_hits] + proved_defects,
+            "known_finding_obligations": [x["fn"] for x in known_rows],
             "undecided": [r.get("undecided") for r in undecided],
             "vacuity_guard": "canary copy with assert(false) at the start of every contracted body must fail: "
                              + ("passed" if all(r.get("canary_ok", False) for r in results if r["status"] == "ok") else "FAILED"),
@@ -652,10 +661,7 @@ def report(prop, tier, seed, results, kres, t0):
     if rc == 0:
         print("OK property=%s tier=%s obligations=%d discharged=%d tagged_clauses=%d wall=%.1fs" %
               (prop, tier, obligations, discharged, n_tagged, wall))
-        # a function whose only failing clauses are recorded findings is accounted for (reported above), not undecided
-        known_fns = {(r["unit"], (e["fn"]["name"] if e.get("fn") else e.get("lemma"))) for _, e, r in known_hits}
-        accounted = len([x for x in per_fn if not x["ok"] and (x.get("unit"), x["fn"].split("::")[-1]) in known_fns])
-        if obligations == 0 or obligations != discharged + accounted:
+        if obligations == 0 or obligations != discharged:
             print("UNDECIDED property=%s obligation count %d/%d" % (prop, discharged, obligations))
             return 2
     return rc
